@@ -138,6 +138,42 @@ sys.exit(3 if any(lists) else 0)
 '''
 
 
+REAL_MP_LATE_FORK = r'''
+import os, sys, multiprocessing, hashlib, logging, time, collections
+logging.disable(logging.CRITICAL)
+os.environ["USE_MULTIPROCESSING"] = "True"
+sys.path.insert(0, sys.argv[2] + "/src")
+from hashstore.filehashstore import FileHashStore
+root = sys.argv[1]
+data = root + "-in.bin"
+open(data, "wb").write(b"A" * 5000)
+store = FileHashStore(dict(store_path=root, store_depth=3, store_width=2, store_algorithm="SHA-256",
+                           store_metadata_namespace="ns://x"))
+cid = hashlib.sha256(b"A" * 5000).hexdigest()
+store.store_object(None, data)
+def work(i):
+    out = []
+    pid = "p%d" % (i % 2)
+    for call in (lambda: store.tag_object(pid, cid), lambda: store.store_metadata(pid, data),
+                 lambda: store.delete_object(pid), lambda: store.store_object(pid, data),
+                 lambda: store.delete_metadata(pid), lambda: store.delete_object(pid)):
+        try:
+            call()
+        except Exception as e:
+            m = type(e).__module__ or ""
+            if not m.startswith("hashstore") and not isinstance(e, OSError):
+                out.append("%s: %s" % (type(e).__name__, str(e)[:80]))
+    return out
+ctx = multiprocessing.get_context("fork")
+with ctx.Pool(4, maxtasksperchild=1) as pool:
+    res = pool.map(work, range(int(sys.argv[3])), chunksize=1)
+bad = collections.Counter(x for r in res for x in r)
+lists = [list(store.object_locked_pids_mp), list(store.object_locked_cids_mp), list(store.reference_locked_pids_mp), list(store.metadata_locked_docs_mp)]
+print("TASKS", len(res), "INTERNAL", dict(bad), "LOCKED", lists)
+sys.exit(3 if any(lists) else (4 if bad else 0))
+'''
+
+
 def real_processes(rep, tier):
     """Part c (conformance, sampled): real forked workers with the REAL multiprocessing primitives contend on two
     shared pids and one cid.  Only termination and 'nothing left locked' are judged (a real run is always a genuine
@@ -171,6 +207,32 @@ def real_processes(rep, tier):
     elif r.returncode != 0:
         rep.violation({"kind": "real-processes", "what": "the multiprocessing-mode run with forked workers failed"},
                       {"err": r.stderr[-600:]})
+    # second run: worker processes are replaced after every task (Pool(maxtasksperchild=1)), so new processes are FORKED WHILE
+    # others are inside critical sections; judged: termination, nothing left locked, and no exception that is neither one
+    # of the package's own classes nor an OSError (an internal error such as list.remove(x) of an entry somebody else removed)
+    import shutil
+    shutil.rmtree(os.path.join(d, "store2"), ignore_errors=True)
+    tasks = "60" if tier == "quick" else "400"
+    proc = subprocess.Popen([sys.executable, "-c", REAL_MP_LATE_FORK, os.path.join(d, "store2"), common.REPO, tasks],
+                            stdout=subprocess.PIPE, stderr=subprocess.PIPE, text=True, start_new_session=True)
+    try:
+        out, err = proc.communicate(timeout=90 if tier == "quick" else 400)
+    except subprocess.TimeoutExpired:
+        os.killpg(proc.pid, signal.SIGKILL)
+        proc.communicate()
+        rep.violation({"kind": "real-processes", "what": "worker processes forked while others hold identifiers did not terminate"},
+                      {"tasks": tasks})
+        rep.coverage["real_process_run_late_fork"] = "timed out"
+        return
+    rep.coverage["real_process_run_late_fork"] = (out.strip().splitlines() or ["?"])[-1][:200]
+    if proc.returncode == 3:
+        rep.violation({"kind": "real-processes", "what": "an identifier was left locked after late-forked workers finished"},
+                      {"out": out[-300:]})
+    elif proc.returncode == 4:
+        rep.violation({"kind": "real-processes", "what": "an internal error (neither a hashstore exception nor an OSError) escaped a "
+                                                          "call while worker processes were being forked"}, {"out": out[-400:]})
+    elif proc.returncode != 0:
+        rep.violation({"kind": "real-processes", "what": "the late-fork multiprocessing-mode run failed"}, {"err": err[-600:]})
 
 
 def _mode_job(order):
